@@ -68,7 +68,8 @@ Fixpoint unfold (fuel : nat) (anc : list ident) (top : bool) (e : gent) : option
       if loopcheck && existsb (Nat.eqb id) anc then Some (ILoop id)
       else if xdev && negb top && negb (dev =? rootdev) then Some (IX id)
       else match listing g id with
-           | None => Some IB
+           | None => Some (ID id [(0, IB)])       (* a directory that cannot be read is an entry like any other; what fails is reading it (one
+                                                      diagnostic, made when the walk goes in: not at the depth bound, not when it is pruned) *)
            | Some ch =>
                match fuel with
                | 0 => None
